@@ -350,6 +350,6 @@ pub fn spec() -> PropSpec {
         rule: "replay and iterate x loop bodies {map reading the state, shuffle then map reading the state, group_by+reduce then map reading the state, nested replay} x inputs (empty, 1-3 elements) x iteration bounds 0..3 and a condition that stops the loop early x layouts (local 1-3, remote 1+1 and 2+1 so that the state broadcast crosses hosts): every state read of every replica is logged with its round (deduced from the end-of-iteration markers the same replica saw) and must equal the state the sequential loop has in that round; final state, number of rounds and iterate's output must match; the vector-clock race detector watches the UnsafeCell loop state; schedules within the deviation bound under three canonical orders; non-trivial = non-empty input and at least 2 rounds",
         assumptions: &["deviation bound as reported; body functions fixed"],
         exhaustive_when_uncapped: false,
-        budget_s: (55, 2400),
+        budget_s: (55, 1500),
     }
 }
